@@ -175,6 +175,12 @@ type client struct {
 	sentM sync.Mutex // protects sent
 	sent  map[uint32]hrpc.Call
 
+	// writeM serializes writes to conn. A request is one frame optionally
+	// followed by its cellblocks; on connections other than a TCP socket the
+	// gather-write of these buffers is a sequence of Writes, and calls are
+	// sent both by the batching goroutine and directly by callers of QueueRPC.
+	writeM sync.Mutex
+
 	// inFlight is number of rpcs sent to regionserver awaiting response
 	inFlightM sync.Mutex // protects inFlight and SetReadDeadline
 	inFlight  uint32
@@ -675,12 +681,14 @@ func (c *client) send(rpc hrpc.Call) (uint32, error) {
 	}
 
 	rpcSize.WithLabelValues(c.Addr()).Observe(float64(uint32(len(b)) + cellblocksLen))
+	c.writeM.Lock()
 	if cellblocks != nil {
 		bfs := append(net.Buffers{b}, cellblocks...)
 		_, err = bfs.WriteTo(c.conn)
 	} else {
 		err = c.write(b)
 	}
+	c.writeM.Unlock()
 	if err != nil {
 		return id, ServerError{err}
 	}
